@@ -486,9 +486,9 @@ macro_rules! v5_ack_parse_all {
         #[kani::unwind(2)]
         #[kani::stub(core::str::from_utf8, utf8_model)]
         fn $name() {
-            let b: [u8; 4] = kani::any();
+            let b: [u8; 3] = kani::any();
             let n: usize = kani::any();
-            kani::assume(n <= 4);
+            kani::assume(n <= 3);
             match v5_0::$ty::<u16>::parse(&b[..n]) {
                 Ok((p, used)) => {
                     assert!(used <= n, "[C04] consumed bytes never exceed the input");
@@ -506,10 +506,10 @@ macro_rules! v5_ack_parse_all {
         }
     };
 }
-v5_ack_parse_all!(c04_v5_puback_n4, GenericPuback);
-v5_ack_parse_all!(c04_v5_pubrec_n4, GenericPubrec);
-v5_ack_parse_all!(c04_v5_pubrel_n4, GenericPubrel);
-v5_ack_parse_all!(c04_v5_pubcomp_n4, GenericPubcomp);
+v5_ack_parse_all!(c04_v5_puback_n3, GenericPuback);
+v5_ack_parse_all!(c04_v5_pubrec_n3, GenericPubrec);
+v5_ack_parse_all!(c04_v5_pubrel_n3, GenericPubrel);
+v5_ack_parse_all!(c04_v5_pubcomp_n3, GenericPubcomp);
 
 // v5.0 SUBACK / UNSUBACK with a non-minimal Property Length (0x80 0x00 = 0 in two bytes)
 #[kani::proof]
